@@ -131,9 +131,40 @@ def classify(rec, clauses):
     return f"setmetrics-{cl}"
 
 
+def apalache_inductive(ctx):
+    """thorough tier: the registry invariant as an inductive invariant (every pool of <= 8 variables, every registry
+    satisfying the invariant), discharged symbolically by Apalache"""
+    import os
+    import shutil
+    import subprocess
+    import tempfile
+    import time
+
+    spec_dir = os.path.join(os.path.dirname(os.path.dirname(os.path.dirname(os.path.abspath(__file__)))), "spec", "apalache")
+    res = {}
+    for name, args in (("base", ["--init=Init", "--length=0"]), ("step", ["--init=IndInit", "--length=1"])):
+        out = tempfile.mkdtemp(prefix="apalache_")
+        t0 = time.time()
+        try:
+            p = subprocess.run(["apalache-mc", "check", "--cinit=CInit", "--inv=IndInv", f"--out-dir={out}"] + args + ["MetricsInd.tla"],
+                               cwd=spec_dir, capture_output=True, text=True, timeout=900)
+            ok = "EXITCODE: OK" in p.stdout
+            bad = "violat" in p.stdout.lower() and not ok
+            res[name] = {"result": "holds" if ok else ("violated" if bad else "error"), "wall_s": round(time.time() - t0, 1)}
+            if bad:
+                ctx.reject("spec-invariant:apalache-" + name, "Apalache refutes the inductive registry invariant", {"tail": p.stdout[-1500:]})
+        except subprocess.TimeoutExpired:
+            res[name] = {"result": "timeout (inconclusive)", "wall_s": round(time.time() - t0, 1)}
+        finally:
+            shutil.rmtree(out, ignore_errors=True)
+    ctx.extra["apalache_inductive_invariant"] = res
+
+
 def run(ctx):
     thorough = ctx.tier == "thorough"
     depth = 4 if thorough else 3
+    if thorough:
+        apalache_inductive(ctx)
     ctx.mc("MC_Metrics", "MC_Metrics_thorough.cfg" if thorough else "MC_Metrics.cfg", coverage=True)
     allcalls = calls()
     pool_list = [[v, POOL[v][0], POOL[v][1]] for v in sorted(POOL)]
